@@ -357,8 +357,15 @@ void QXmppOutgoingClient::_q_socketDisconnected()
         if (d->sessionStarted) {
             closeSession();
         }
-        d->connectToHost({ ServerAddress::Tcp, d->redirect->host, d->redirect->port });
+        // Connect from the event loop: the socket is still handling its disconnection when this
+        // slot runs, and a connection started from here never completes after TLS was used.
+        auto redirect = std::move(*d->redirect);
         d->redirect.reset();
+        QMetaObject::invokeMethod(
+            this, [this, redirect]() {
+                d->connectToHost({ ServerAddress::Tcp, redirect.host, redirect.port });
+            },
+            Qt::QueuedConnection);
     } else {
         closeSession();
     }
